@@ -19,3 +19,5 @@ def check(A):
         S.close_once(A, fl, 'C16')
         R.handle_connect_rules(A, fl, 'C16')
         R.trigger_event_rules(A, fl, 'C16')
+        R.queue_unbounded_rule(A, fl, 'C16')
+        R.sweep_complete_rule(A, fl, 'C16')
